@@ -311,21 +311,24 @@ def demoTrace : List Lbl :=
    .waitRead 11 5, .waitRead 12 5, .waitCas 11 true, .decRead 2 9, .decCas 2 true, .waitCas 12 false,
    .wakeDeq 2 10, .wakeSpin 2, .blockBegin 11, .waitRead 12 10]
 
-example : calcBits 2 = 2 := by decide
+example : calcBits 2 = 2 := calcBits_examples.2.2.1
 
 example : ∃ s, runs (step 2) init demoTrace = some s ∧ s.state = 10 ∧ s.q = [] ∧ s.anns = [11] ∧
     s.pc 2 = .ddeq 1 [10] ∧ s.pc 11 = .annSw ∧ s.pc 12 = .idle ∧ s.ndec = 2 ∧ s.rets = 1 := by
-  refine ⟨_, rfl, ?_⟩; decide
+  have hb : calcBits 2 = 2 := calcBits_examples.2.2.1
+  simp [demoTrace, runs, step, init, upd, decsOf, waitersOf, mask, hb]
 
 /-- … and the release completes: 11 enqueues, is dequeued, both are pushed, both return -/
 example : ∃ s, runs (step 2) init (demoTrace ++ [.cbEnq 11, .wakeDeq 2 11, .wakePush 2 10, .wakePush 2 11,
     .waitRead 11 10, .waitRead 10 10, .waitRead 13 10]) = some s ∧
     s.pushes = 2 ∧ s.rets = 4 ∧ s.q = [] ∧ s.wk = [] ∧ s.pc 2 = .idle ∧ s.pc 10 = .idle ∧ s.pc 11 = .idle := by
-  refine ⟨_, rfl, ?_⟩; decide
+  have hb : calcBits 2 = 2 := calcBits_examples.2.2.1
+  simp [demoTrace, runs, step, init, upd, decsOf, waitersOf, mask, hb]
 
 /-- N = 0: wait returns at once, dec is "excess" -/
 example : ∃ s, runs (step 0) init [.waitRead 1 0, .decRead 2 0, .waitRead 1 0] = some s ∧
     s.pc 1 = .idle ∧ s.pc 2 = .dexit ∧ s.rets = 2 := by
-  refine ⟨_, rfl, ?_⟩; decide
+  have hb : calcBits 0 = 0 := calcBits_examples.1
+  simp [runs, step, init, upd, decsOf, mask, hb]
 
 end MythVerif.JoinCounter
